@@ -11,7 +11,8 @@
     the note's value, account and scope of key [k], nullifier [nf_of p k n (base + i)], change flag
     "account of [k] is among [accts]", and [o]'s ephemeral key and commitment. *)
 From V.Lib Require Import Base.
-From V.C05 Require Import Model Spec Corr Wf Proofs.
+From V.C05 Require Import Model Spec Corr Wf Proofs Eqb Bridge Batched.
+From Coq Require Import Permutation.
 Local Open Scope N_scope.
 
 (** An output is found by the key search iff some scanning key decrypts it. *)
@@ -103,8 +104,8 @@ Theorem C05_wrong_height_rejected : forall dec nf_of c keys nfs b pm,
   b_height b < U32 -> b_height b <> sat_succ (p_height pm) ->
   scan_block dec nf_of c (Some pm) keys nfs b = Err (BlockHeightDiscontinuity (p_height pm) (b_height b)).
 Proof. exact wrong_height_rejected. Qed.
-Theorem C05_wrong_prev_hash_rejected : forall dec nf_of c keys nfs b pm x,
-  b_height b < U32 -> b_height b = sat_succ (p_height pm) -> spec_prev b = Some x -> x <> p_hash pm ->
+Theorem C05_wrong_prev_hash_rejected : forall dec nf_of c keys nfs b pm,
+  b_height b < U32 -> b_height b = sat_succ (p_height pm) -> spec_prev b <> Some (p_hash pm) ->
   scan_block dec nf_of c (Some pm) keys nfs b = Err (PrevHashMismatch (b_height b)).
 Proof. exact wrong_prev_rejected. Qed.
 (** malformed fields are never accepted *)
@@ -116,9 +117,9 @@ Theorem C05_ok_implies_fields_wellformed : forall dec nf_of c prior keys nfs b r
 Proof. exact ok_fields. Qed.
 
 (** scan_total: no panic for arbitrary field lengths, transaction indices, tree sizes and
-    metadata, under the visible guard: the height fits u32, the block hash (and, when there is a
-    prior block, the previous-block hash) is 32 bytes or there is a parsable header, every txid is
-    32 bytes, and each pool has fewer than 2^32 outputs in the block. *)
+    metadata, under the visible guard: the height fits u32, the block hash is 32 bytes or there
+    is a parsable header, every txid is 32 bytes, and each pool has fewer than 2^32 outputs in
+    the block. (A previous-block hash of any length is compared, never parsed.) *)
 Theorem C05_scan_total : forall dec nf_of c prior keys nfs b,
   no_panic_guard prior b -> scan_block dec nf_of c prior keys nfs b <> Panic.
 Proof. exact scan_total. Qed.
@@ -146,6 +147,66 @@ Theorem C05_tree_size_overflow_fixed : forall dec nf_of,
   scan_block dec nf_of cfg1 (Some (Pm 9 2 (Some 4294967295) (Some 0) (Some 0))) [] empty_nfs blk_one_out
   = Err (TreeSizeOverflow Sapling 10).
 Proof. exact overflow_fixed. Qed.
+
+(** ---- the bridge ------------------------------------------------------------------------- *)
+(** The model computes exactly the closed-form specification of Spec.v (no position tracker, no
+    order of checks): a block is accepted iff it is [acceptable], the result is then [expected],
+    and an error is returned only for a block that is not acceptable. Guard: the prior block's
+    height is below u32::MAX ([BlockHeight + 1] saturates). *)
+Theorem C05_scan_correct : forall dec nf_of c prior keys nfs b,
+  prior_ok prior ->
+  (forall r, scan_block dec nf_of c prior keys nfs b = Ok r
+             <-> acceptable c prior b = true /\ r = expected dec nf_of c prior keys nfs b)
+  /\ (forall e, scan_block dec nf_of c prior keys nfs b = Err e -> acceptable c prior b = false).
+Proof. exact scan_correct. Qed.
+(** Agreement with the model IS the property: a case in the theorems' domain, outside the
+    known-finding classes, on which the implementation's inline outcome equals the model's and no
+    batched run differed, passes the property checker. *)
+Theorem C05_bridge : forall x,
+  wf_case x = true -> known_class x = 0 -> case_alts x = [] -> run_case x = true -> prop_case x = true.
+Proof. exact bridge. Qed.
+(** The comparisons used by run_case / prop_case decide equality. *)
+Theorem C05_res_eqb_sound : forall a b, res_eqb a b = true <-> a = b.
+Proof. exact res_eqb_spec. Qed.
+Theorem C05_scanned_eqb_sound : forall a b, scanned_eqb a b = true <-> a = b.
+Proof. exact scanned_eqb_spec. Qed.
+Theorem C05_serr_eqb_sound : forall a b, serr_eqb a b = true <-> a = b.
+Proof. exact serr_eqb_spec. Qed.
+
+(** ---- what the batched path must compute (Batched.v) ------------------------------------- *)
+(** [find_received] depends on trial decryption only through the vector of per-output results. *)
+Theorem C05_find_received_function_of_results : forall dec nf_of p h last base keys accts outs i,
+  find_received dec nf_of p h last base keys accts i outs
+  = find_received_v nf_of p h last base accts i outs (map (find_key dec p keys) outs).
+Proof. exact find_received_is_v. Qed.
+(** Whatever order the workers' results for a transaction arrive in (any permutation of its
+    successful decryptions), collecting them by output index and scanning gives the inline result. *)
+Theorem C05_batched_tx_equals_inline : forall dec nf_of p h last base keys accts outs arr,
+  Permutation arr (results_of dec p keys outs) ->
+  find_received_v nf_of p h last base accts 0 outs (decrypted_opts arr (length outs))
+  = find_received dec nf_of p h last base keys accts 0 outs.
+Proof. exact batched_tx_equals_inline. Qed.
+(** With pairwise distinct (block hash, txid) keys, taking the receivers transaction by
+    transaction returns every transaction exactly its own arrivals ... *)
+Theorem C05_runner_returns_own : forall (E : Type) (ekey : E -> rkey) (sched : E -> list (N * kn)) (es : list E),
+  NoDup (map ekey es) -> process E ekey (insert_all E ekey sched [] es) es = map sched es.
+Proof. exact runner_returns_own. Qed.
+(** ... independently of the layout of the pending map (a function of the multiset of entries). *)
+Theorem C05_pending_layout_irrelevant : forall k pd pd',
+  Permutation pd pd' -> NoDup (map fst pd) -> p_find k pd = p_find k pd'.
+Proof. exact p_find_perm. Qed.
+(** The distinct-key guard is needed (known-finding class 4): with a repeated key the first
+    transaction is handed the second one's arrivals and the second one nothing. *)
+Theorem C05_dup_key_refuted : forall (E : Type) (ekey : E -> rkey) (sched : E -> list (N * kn)) (e1 e2 : E),
+  ekey e1 = ekey e2 -> process E ekey (insert_all E ekey sched [] [e1; e2]) [e1; e2] = [sched e2; []].
+Proof. exact dup_key_loses_results. Qed.
+
+(** The fourth repaired defect: a previous-block hash of the wrong length is a mismatch. *)
+Theorem C05_prev_hash_length_fixed : forall dec nf_of,
+  scan_block dec nf_of cfg1 (Some (Pm 9 2 (Some 0) (Some 0) (Some 0))) [] empty_nfs
+             (Blk 10 (F 32 true 1) (F 31 true 2) 0 None [] None)
+  = Err (PrevHashMismatch 10).
+Proof. exact prev_hash_fixed. Qed.
 
 (** Non-vacuity: a connected block with one Sapling output for key (account 7, external) is
     accepted, and the note is reported at position 10 = prior size with value 5. *)
